@@ -1927,7 +1927,7 @@ LEVEL_TEXT = (
     'exploratory over scenarios.')
 LEVEL_NOTE = (
     'Trusts the harness FaultFS (Python-level proxy over the real buffered file objects; operations = Python-level '
-    'open/write/flush/seek/truncate/close and os-level replace/rename/unlink/mkdir), the SIGKILL model (validated '
+    'open/write/flush/seek/truncate/close and os-level replace/rename/unlink/mkdir/fsync and, in single-writer runs, the metadata calls stat/lstat/access/chmod/chown/utime/link/symlink), the SIGKILL model (validated '
     'against real forked kills), single-fault semantics and Linux file-system behaviour (scratch directories are '
     'tempfile.mkdtemp() per case on /dev/shm when present, else the default temp dir); no power-loss/fsync model.')
 TECHNIQUE = ('fault injection with exhaustive crash/fault-point enumeration per trace (Hypothesis-generated scenarios), '
